@@ -250,7 +250,7 @@ def run(rep: Report, repo: Repo):
                     tg = n.targets[0] if isinstance(n, ast.Assign) else n.target
                     if isinstance(tg, ast.Subscript) and attr_chain(tg.value) in arrs:
                         rep.violate('C01.writers', lmod, fn, n, f'{cname}: extra store to signal memory after the dispatch chain', node=n)
-    rep.floor('2-valued branches', nbranch, 66)
+    rep.floor('2-valued branches', nbranch, 60)
 
     check_plumbing(rep, repo, lmod, simmod, init)
 
